@@ -81,122 +81,122 @@ func init() {
 var checks = map[string]*Check{
 	"C20": {ID: "C20", Parts: []Part{{Harness: "tools", Func: "C20"}}, Category: "exploration", QuickDeadline: 240, ThoroughDeadline: 1500,
 		Engine: "E1", DesignRef: "6/C20",
-		Technique: "bounded-exhaustive enumeration of spec graphs with a reference analysis recomputed from the graph and a parse-back of the Dot and Mermaid renderings",
-		LevelText: "Every spec graph of the family (missing / variable / empty targets, terminal and unreachable nodes, native and source actions and guards) is compiled, analysed and rendered by the real tools; the analysis must equal a recomputation from the graph and the renderings, parsed back, must contain exactly one node per spec node and one edge per branch; no panic.",
-		LevelNote: "Trusted: the line grammar used to parse the renderings back (node names are restricted to ones it recovers unambiguously).",
+		Technique:   "bounded-exhaustive enumeration of spec graphs with a reference analysis recomputed from the graph and a parse-back of the Dot and Mermaid renderings",
+		LevelText:   "Every spec graph of the family (missing / variable / empty targets, terminal and unreachable nodes, native and source actions and guards) is compiled, analysed and rendered by the real tools; the analysis must equal a recomputation from the graph and the renderings, parsed back, must contain exactly one node per spec node and one edge per branch; no panic.",
+		LevelNote:   "Trusted: the line grammar used to parse the renderings back (node names are restricted to ones it recovers unambiguously).",
 		Assumptions: commonAssumptions},
 	"C19": {ID: "C19", Parts: []Part{{Harness: "tools", Func: "C19"}}, Category: "exploration", QuickDeadline: 240, ThoroughDeadline: 1500,
 		Engine: "E1", DesignRef: "6/C19",
-		Technique: "bounded-exhaustive enumeration of (session, output stream) pairs on the real Session.Run driving a scripted subprocess, against a reference of the pass conditions (soundness direction)",
-		LevelText: "Every session over a small vocabulary of expected / inverted / guarded outputs and every short stream of emitted lines (with repetitions and noise) is run through the real tool against a subprocess that prints the stream; whenever the tool passes, the reference pass conditions must hold.",
-		LevelNote: "Trusted: the reference pass conditions; cases expected to fail use a short timeout, which can only turn a pass into a fail. Only the false-pass direction is claimed.",
+		Technique:   "bounded-exhaustive enumeration of (session, output stream) pairs on the real Session.Run driving a scripted subprocess, against a reference of the pass conditions (soundness direction)",
+		LevelText:   "Every session over a small vocabulary of expected / inverted / guarded outputs and every short stream of emitted lines (with repetitions and noise) is run through the real tool against a subprocess that prints the stream; whenever the tool passes, the reference pass conditions must hold.",
+		LevelNote:   "Trusted: the reference pass conditions; cases expected to fail use a short timeout, which can only turn a pass into a fail. Only the false-pass direction is claimed.",
 		Assumptions: commonAssumptions},
 	"C15": {ID: "C15", Parts: []Part{{Harness: "sio", Func: "C15"}}, Category: "model_checking", QuickDeadline: 240, ThoroughDeadline: 1500,
 		Engine: "E1", DesignRef: "6/C15",
-		Technique: "explicit-state breadth-first search over crew-operation histories on the real sio.Crew (successor = replay on a fresh crew; states deduplicated by a canonical key) with a shadow-store invariant in every state and a reboot differential on continuations",
-		LevelText: "Every reachable state (up to the history bound) of a real crew driven by create / replace-state / replace-spec / delete / re-create operations and ordinary messages is visited; in each, a store that applied every reported change must equal the live crew, and a crew rebuilt from that store must behave like the original on all short continuations.",
-		LevelNote: "Trusted: the shadow fold (copied from sio.Stdio's consumer loop) and the canonical state key; machines whose reactions commute (as the property requires).",
+		Technique:   "explicit-state breadth-first search over crew-operation histories on the real sio.Crew (successor = replay on a fresh crew; states deduplicated by a canonical key) with a shadow-store invariant in every state and a reboot differential on continuations",
+		LevelText:   "Every reachable state (up to the history bound) of a real crew driven by create / replace-state / replace-spec / delete / re-create operations and ordinary messages is visited; in each, a store that applied every reported change must equal the live crew, and a crew rebuilt from that store must behave like the original on all short continuations.",
+		LevelNote:   "Trusted: the shadow fold (copied from sio.Stdio's consumer loop) and the canonical state key; machines whose reactions commute (as the property requires).",
 		Assumptions: commonAssumptions},
 	"C14": {ID: "C14", Parts: []Part{{Harness: "sio", Func: "C14sio"}, {Harness: "mdb", Func: "C14mdb"}, {Harness: "mcrew", Func: "C14mcrew"}}, GoMaxProcs: 1, Category: "model_checking", QuickDeadline: 240, ThoroughDeadline: 1500,
 		Engine: "E1+E2", DesignRef: "6/C14",
-		Technique: "exhaustive enumeration of crews x routing targets x emission scripts x message-history depth on the real crew hosts, under every machine-iteration order within a deviation bound (vrange), against a breadth-first reference router",
-		LevelText: "Every crew of 1-3 recorder machines, every routing target shape and every emission script up to the counter depth is processed by the real crew; per-machine receive logs, Result.Emitted and emission order are compared with a reference router, under every explored map-iteration order.",
-		LevelNote: "Trusted: the reference router (documented recipient rule per host) and the recorder script.",
+		Technique:   "exhaustive enumeration of crews x routing targets x emission scripts x message-history depth on the real crew hosts, under every machine-iteration order within a deviation bound (vrange), against a breadth-first reference router",
+		LevelText:   "Every crew of 1-3 recorder machines, every routing target shape and every emission script up to the counter depth is processed by the real crew; per-machine receive logs, Result.Emitted and emission order are compared with a reference router, under every explored map-iteration order.",
+		LevelNote:   "Trusted: the reference router (documented recipient rule per host) and the recorder script.",
 		Assumptions: commonAssumptions},
 	"C16": {ID: "C16", Parts: []Part{{Harness: "mcrew", Func: "C16", Race: true}}, Category: "model_checking", QuickDeadline: 240, ThoroughDeadline: 1500, GoMaxProcs: 1,
 		Engine: "E1+E2", DesignRef: "6/C16",
-		Technique: "exhaustive enumeration of operation/fault sequences on the real Service over a real bolt store with a memory==store oracle after every operation, plus stateless schedule exploration of concurrent clients with a brute-force linearizability oracle (all sequential orders, the service itself as reference)",
-		LevelText: "Every sequence of service operations and store up/down events up to the bound is run on the real mcrew Service and bolt file, comparing the in-memory crew with the stored crew after every operation; every schedule (within the deviation bound) of 2-3 concurrent clients is run under the controlled scheduler and its results and final state must equal those of some sequential order.",
-		LevelNote: "Trusted: bbolt (its internal locks are not scheduling points; a thread blocked there is seen as blocked). Storage failure is modelled as the store being closed / keys bolt rejects / unserialisable bindings, not as torn writes inside bolt.",
+		Technique:   "exhaustive enumeration of operation/fault sequences on the real Service over a real bolt store with a memory==store oracle after every operation, plus stateless schedule exploration of concurrent clients with a brute-force linearizability oracle (all sequential orders, the service itself as reference)",
+		LevelText:   "Every sequence of service operations and store up/down events up to the bound is run on the real mcrew Service and bolt file, comparing the in-memory crew with the stored crew after every operation; every schedule (within the deviation bound) of 2-3 concurrent clients is run under the controlled scheduler and its results and final state must equal those of some sequential order.",
+		LevelNote:   "Trusted: bbolt (its internal locks are not scheduling points; a thread blocked there is seen as blocked). Storage failure is modelled as the store being closed / keys bolt rejects / unserialisable bindings, not as torn writes inside bolt.",
 		Assumptions: commonAssumptions},
 	"C11": {ID: "C11", Parts: []Part{{Harness: "core", Func: "C11"}}, Category: "exploration", QuickDeadline: 240, ThoroughDeadline: 1500, CrashIsViolation: true, Workers: 8,
 		Engine: "E1", DesignRef: "6/C11",
-		Technique: "bounded-exhaustive enumeration of looping script shapes x cancellation points (context cancelled at the k-th harness tick, pre-cancelled, pre-expired, real deadlines) x routing x concurrency, with a logical (tick-count) bound on progress after cancellation and a goroutine-leak check by runtime.Stack",
-		LevelText: "Every combination of looping script shape, position (action/guard), cancellation point, error routing and number of concurrent executions is run on the real interpreter and engine; the call must return, the script must not keep running after its context is done (bounded in ticks, not in milliseconds), the failure must be the timeout error routed like any action error, and no goroutine started for the call may survive it.",
-		LevelNote: "Only partly within the family: the cancellation point is an enumerated choice, but what happens inside goja between the cancel and the interruption is not under the scheduler's control; 'promptly' is weakened to a tick-count bound and a 90 s horizon. Real deadlines use the real clock.",
+		Technique:   "bounded-exhaustive enumeration of looping script shapes x cancellation points (context cancelled at the k-th harness tick, pre-cancelled, pre-expired, real deadlines) x routing x concurrency, with a logical (tick-count) bound on progress after cancellation and a goroutine-leak check by runtime.Stack",
+		LevelText:   "Every combination of looping script shape, position (action/guard), cancellation point, error routing and number of concurrent executions is run on the real interpreter and engine; the call must return, the script must not keep running after its context is done (bounded in ticks, not in milliseconds), the failure must be the timeout error routed like any action error, and no goroutine started for the call may survive it.",
+		LevelNote:   "Only partly within the family: the cancellation point is an enumerated choice, but what happens inside goja between the cancel and the interruption is not under the scheduler's control; 'promptly' is weakened to a tick-count bound and a 90 s horizon. Real deadlines use the real clock.",
 		Assumptions: commonAssumptions},
 	"C10": {ID: "C10", Parts: []Part{{Harness: "core", Func: "C10"}, {Harness: "corec", Func: "C10c", Race: true}}, GoMaxProcs: 1, Category: "exploration", QuickDeadline: 240, ThoroughDeadline: 1500,
 		Engine: "E1+E2", DesignRef: "6/C10",
-		Technique: "bounded-exhaustive enumeration of (polluter, [polluter,] probe) script sequences with solo-equivalence and caller-snapshot oracles; stateless schedule exploration of concurrent executions of one compiled source (with a race-detector pass)",
-		LevelText: "Every ordered pair and triple of polluting scripts and probe scripts is executed on the real interpreter (directly and through Spec.Walk, with shared compiled programs and shared caller objects): the probe must observe nothing, the caller's bindings and props must be unchanged.",
-		LevelNote: "Trusted: the script vocabulary as a stand-in for 'whatever a script does'; goja itself.",
+		Technique:   "bounded-exhaustive enumeration of (polluter, [polluter,] probe) script sequences with solo-equivalence and caller-snapshot oracles; stateless schedule exploration of concurrent executions of one compiled source (with a race-detector pass)",
+		LevelText:   "Every ordered pair and triple of polluting scripts and probe scripts is executed on the real interpreter (directly and through Spec.Walk, with shared compiled programs and shared caller objects): the probe must observe nothing, the caller's bindings and props must be unchanged.",
+		LevelNote:   "Trusted: the script vocabulary as a stand-in for 'whatever a script does'; goja itself.",
 		Assumptions: commonAssumptions},
 	"C12": {ID: "C12", Parts: []Part{{Harness: "corec", Func: "C12", Race: true}}, Category: "model_checking", QuickDeadline: 240, ThoroughDeadline: 1500, GoMaxProcs: 1,
 		Engine: "E2", DesignRef: "6/C12",
-		Technique: "stateless schedule exploration of concurrent walks over one compiled spec (yield points inside native and ECMAScript actions/guards, shimmed atomics of UpdatableSpec) with per-walk solo-equivalence oracle, plus a ThreadSanitizer pass on the explored schedules",
-		LevelText: "Every interleaving (within the deviation bound) of 2-3 concurrent walks of distinct machines over one compiled specification, and of walks with concurrent SetSpec calls on an UpdatableSpec, is executed on the real code; each walk must equal its solo result under exactly one version (never a version older than a completed SetSpec), the spec's deep snapshot must not change, and ThreadSanitizer must stay silent.",
-		LevelNote: "Trusted: rt/sched; yield points are placed in actions and guards (the engine code between them runs atomically in a schedule); ThreadSanitizer covers the accesses in between. goja internals are not scheduling points.",
+		Technique:   "stateless schedule exploration of concurrent walks over one compiled spec (yield points inside native and ECMAScript actions/guards, shimmed atomics of UpdatableSpec) with per-walk solo-equivalence oracle, plus a ThreadSanitizer pass on the explored schedules",
+		LevelText:   "Every interleaving (within the deviation bound) of 2-3 concurrent walks of distinct machines over one compiled specification, and of walks with concurrent SetSpec calls on an UpdatableSpec, is executed on the real code; each walk must equal its solo result under exactly one version (never a version older than a completed SetSpec), the spec's deep snapshot must not change, and ThreadSanitizer must stay silent.",
+		LevelNote:   "Trusted: rt/sched; yield points are placed in actions and guards (the engine code between them runs atomically in a schedule); ThreadSanitizer covers the accesses in between. goja internals are not scheduling points.",
 		Assumptions: commonAssumptions},
 	"C17": {ID: "C17", Parts: []Part{{Harness: "mcrew", Func: "C17mcrew", Race: true}, {Harness: "sio", Func: "C17sio", Race: true}}, Category: "model_checking", QuickDeadline: 240, ThoroughDeadline: 1500, GoMaxProcs: 1,
 		Engine: "E2", DesignRef: "6/C17",
-		Technique: "stateless schedule exploration (controlled cooperative scheduler over shimmed sync/time, virtual clock, DFS with deviation bounding) of the real timer implementations, with a per-id monitor automaton on every execution",
-		LevelText: "For every short request scenario (requests before, during - from the firing handler - and after a firing) every schedule of requester, timer goroutines and timer-fire events within the deviation bound is executed on the real Timers code under a controlled scheduler with virtual time; a monitor checks at-most-once, never-early, never-after-successful-cancel, exactly-once at the end of time, pending-set equality and id reuse.",
-		LevelNote: "Trusted: the scheduler (rt/sched): quiescence by runtime.Stack inspection, channel operations are not choice points (each step issues at most one waking event; counted otherwise). Go's select fairness and real-time effects are outside the model.",
+		Technique:   "stateless schedule exploration (controlled cooperative scheduler over shimmed sync/time, virtual clock, DFS with deviation bounding) of the real timer implementations, with a per-id monitor automaton on every execution",
+		LevelText:   "For every short request scenario (requests before, during - from the firing handler - and after a firing) every schedule of requester, timer goroutines and timer-fire events within the deviation bound is executed on the real Timers code under a controlled scheduler with virtual time; a monitor checks at-most-once, never-early, never-after-successful-cancel, exactly-once at the end of time, pending-set equality and id reuse.",
+		LevelNote:   "Trusted: the scheduler (rt/sched): quiescence by runtime.Stack inspection, channel operations are not choice points (each step issues at most one waking event; counted otherwise). Go's select fairness and real-time effects are outside the model.",
 		Assumptions: commonAssumptions},
 	"C03": {ID: "C03", Harness: "match", Func: "C03", Category: "model_checking", QuickDeadline: 240, ThoroughDeadline: 1500, Race: true,
 		Engine: "E1", DesignRef: "6/C03",
-		Technique: "bounded-exhaustive input enumeration x deviation-bounded exhaustive exploration of map-iteration orders (every range over a map is an explicit choice point owned by the explorer) with deep argument snapshots; plus a free-running race-detector pass with shared arguments",
-		LevelText: "For every triple of the space the real matcher is executed under every combination of map-iteration orders with up to k deviating range executions; the result multiset and error outcome must not depend on the order, the arguments must be untouched (deep snapshots), results must be independent maps. A separate -race build matches the same argument objects from three goroutines.",
-		LevelNote: "Trusted: the range rewrite (vinstr) and vrange.Keys; ThreadSanitizer for the concurrent clause (goroutines share no synchronisation, so the happens-before verdict is schedule independent). Orders of maps with more than 4 keys are not fully enumerated (rotations + reversal).",
+		Technique:   "bounded-exhaustive input enumeration x deviation-bounded exhaustive exploration of map-iteration orders (every range over a map is an explicit choice point owned by the explorer) with deep argument snapshots; plus a free-running race-detector pass with shared arguments",
+		LevelText:   "For every triple of the space the real matcher is executed under every combination of map-iteration orders with up to k deviating range executions; the result multiset and error outcome must not depend on the order, the arguments must be untouched (deep snapshots), results must be independent maps. A separate -race build matches the same argument objects from three goroutines.",
+		LevelNote:   "Trusted: the range rewrite (vinstr) and vrange.Keys; ThreadSanitizer for the concurrent clause (goroutines share no synchronisation, so the happens-before verdict is schedule independent). Orders of maps with more than 4 keys are not fully enumerated (rotations + reversal).",
 		Assumptions: commonAssumptions},
 	"C02": {ID: "C02", Harness: "match", Func: "C02", Category: "exploration", QuickDeadline: 240, ThoroughDeadline: 1500,
 		Engine: "E1", DesignRef: "6/C02",
-		Technique: "bounded-exhaustive enumeration of (pattern, message) pairs against a reference backtracking enumerator of embeddings, plus exhaustive planting (instantiated pattern + every insertion of distractors up to k)",
-		LevelText: "Every small pattern/message pair over a two-letter alphabet is matched by the real matcher and by a plain backtracking reference: every embedding must be returned (and nothing else for plain patterns). Deeper: every assignment is planted into the instantiated pattern and buried under every combination of up to k partially-matching distractors; the planted assignment must be found.",
-		LevelNote: "Trusted: reference enumerator rt/ref/rmatch.Embeddings. Side conditions of the property (arrays as sets, repeated variables scalar, planted array value distinct from constant members) are enforced by the generator; inequality variables are not part of this check.",
+		Technique:   "bounded-exhaustive enumeration of (pattern, message) pairs against a reference backtracking enumerator of embeddings, plus exhaustive planting (instantiated pattern + every insertion of distractors up to k)",
+		LevelText:   "Every small pattern/message pair over a two-letter alphabet is matched by the real matcher and by a plain backtracking reference: every embedding must be returned (and nothing else for plain patterns). Deeper: every assignment is planted into the instantiated pattern and buried under every combination of up to k partially-matching distractors; the planted assignment must be found.",
+		LevelNote:   "Trusted: reference enumerator rt/ref/rmatch.Embeddings. Side conditions of the property (arrays as sets, repeated variables scalar, planted array value distinct from constant members) are enforced by the generator; inequality variables are not part of this check.",
 		Assumptions: commonAssumptions},
 	"C13": {ID: "C13", Harness: "core", Func: "C13", Category: "exploration", QuickDeadline: 240, ThoroughDeadline: 1500,
 		Engine: "E1", DesignRef: "6/C13",
-		Technique: "bounded-exhaustive enumeration of abstract specs x representations x pattern syntaxes x compile variants; differential of complete behaviour trees (all message sequences up to a bound) against the Go-structure rendering",
-		LevelText: "Every abstract spec of the family is rendered in every supported representation and pattern syntax, compiled once / twice / through a serialise-reload cycle, and its complete behaviour tree over all short message sequences must equal that of the Go-structure rendering; recompilation must not change the spec; unknown interpreters, branching types and pattern syntaxes must be rejected by Compile.",
-		LevelNote: "Trusted: the document renderers (rt/ref/rstep Doc/YAML), encoding/json and the two YAML libraries as loaders (they are what the hosts use).",
+		Technique:   "bounded-exhaustive enumeration of abstract specs x representations x pattern syntaxes x compile variants; differential of complete behaviour trees (all message sequences up to a bound) against the Go-structure rendering",
+		LevelText:   "Every abstract spec of the family is rendered in every supported representation and pattern syntax, compiled once / twice / through a serialise-reload cycle, and its complete behaviour tree over all short message sequences must equal that of the Go-structure rendering; recompilation must not change the spec; unknown interpreters, branching types and pattern syntaxes must be rejected by Compile.",
+		LevelNote:   "Trusted: the document renderers (rt/ref/rstep Doc/YAML), encoding/json and the two YAML libraries as loaders (they are what the hosts use).",
 		Assumptions: commonAssumptions},
 	"C09": {ID: "C09", Harness: "core", Func: "C09", Category: "model_checking", QuickDeadline: 240, ThoroughDeadline: 1500,
 		Engine: "E1", DesignRef: "6/C09",
-		Technique: "explicit enumeration of all message histories x all subsets of save points; differential between the in-memory run and the run that persists/reloads the state through JSON at the chosen boundaries",
-		LevelText: "Every history up to the length bound over a vocabulary of value-producing ECMAScript actions and value-inspecting branches is run twice on the real engine - state kept in memory vs. state marshalled to JSON and re-read at every subset of message boundaries - and the two runs must agree at every message on node, bindings and emitted messages.",
-		LevelNote: "Trusted: encoding/json as the persistence format (what the hosts use). Only the listed producers/inspectors are covered.",
+		Technique:   "explicit enumeration of all message histories x all subsets of save points; differential between the in-memory run and the run that persists/reloads the state through JSON at the chosen boundaries",
+		LevelText:   "Every history up to the length bound over a vocabulary of value-producing ECMAScript actions and value-inspecting branches is run twice on the real engine - state kept in memory vs. state marshalled to JSON and re-read at every subset of message boundaries - and the two runs must agree at every message on node, bindings and emitted messages.",
+		LevelNote:   "Trusted: encoding/json as the persistence format (what the hosts use). Only the listed producers/inspectors are covered.",
 		Assumptions: commonAssumptions},
 	"C08": {ID: "C08", Harness: "core", Func: "C08", Category: "exploration", QuickDeadline: 240, ThoroughDeadline: 1500,
 		Engine: "E1", DesignRef: "6/C08",
-		Technique: "bounded-exhaustive enumeration of emit/mutate/fail programs (every failure mode after every emission prefix) in every position of an action chain, observed through Walk and through a crew, against the reference emission sequence",
-		LevelText: "Every program of the emit/set/fail language up to the length bound is executed as action (3 positions) and as guard, under three error-routing modes, through Spec.Walk and through sio.Crew.ProcessMsg; the emitted messages must be exactly those of the successfully completed actions, in order.",
-		LevelNote: "Trusted: action-language model; cancellation is delivered through the harness context at a fixed tick (the exact interruption instant inside goja is not controlled, and unobservable here).",
+		Technique:   "bounded-exhaustive enumeration of emit/mutate/fail programs (every failure mode after every emission prefix) in every position of an action chain, observed through Walk and through a crew, against the reference emission sequence",
+		LevelText:   "Every program of the emit/set/fail language up to the length bound is executed as action (3 positions) and as guard, under three error-routing modes, through Spec.Walk and through sio.Crew.ProcessMsg; the emitted messages must be exactly those of the successfully completed actions, in order.",
+		LevelNote:   "Trusted: action-language model; cancellation is delivered through the harness context at a fixed tick (the exact interruption instant inside goja is not controlled, and unobservable here).",
 		Assumptions: commonAssumptions},
 	"C07": {ID: "C07", Harness: "core", Func: "C07", Category: "exploration", QuickDeadline: 240, ThoroughDeadline: 1500, CrashIsViolation: true,
 		Engine: "E1", DesignRef: "6/C07",
-		Technique: "conjunction-bounded exhaustive enumeration over independent hostile-input dimensions (all combinations of at most k non-default dimensions) with a panic trap and hang horizon around every load/compile/step/walk, plus reference comparison where defined",
-		LevelText: "Every combination of up to k hostile dimensions (spec document defects, state, message, control, props, action behaviour, guard behaviour, error routing) in five representations is loaded, compiled and processed on the real code under a panic trap; failures must surface as errors or error states equal to the reference's.",
-		LevelNote: "Trusted: panic trap (recover) and the worker-crash detector for fatal errors; reference walk/step. Only the listed hostile values are covered; a crash that needs more than k simultaneous hostile dimensions is out of reach.",
+		Technique:   "conjunction-bounded exhaustive enumeration over independent hostile-input dimensions (all combinations of at most k non-default dimensions) with a panic trap and hang horizon around every load/compile/step/walk, plus reference comparison where defined",
+		LevelText:   "Every combination of up to k hostile dimensions (spec document defects, state, message, control, props, action behaviour, guard behaviour, error routing) in five representations is loaded, compiled and processed on the real code under a panic trap; failures must surface as errors or error states equal to the reference's.",
+		LevelNote:   "Trusted: panic trap (recover) and the worker-crash detector for fatal errors; reference walk/step. Only the listed hostile values are covered; a crash that needs more than k simultaneous hostile dimensions is out of reach.",
 		Assumptions: commonAssumptions},
 	"C06": {ID: "C06", Harness: "core", Func: "C06", Category: "exploration", QuickDeadline: 240, ThoroughDeadline: 1500,
 		Engine: "E1", DesignRef: "6/C06",
-		Technique: "bounded-exhaustive enumeration of step and walk cases with deep before/after snapshots of every argument, map-identity (alias) checks and repeat-call comparison",
-		LevelText: "Every case of the C04 step space and the C05 walk space (quick vocabularies) is executed with deep snapshots of state, messages, spec, control and props taken before and after; any difference, any returned state sharing the caller's bindings map, and any difference between two identical calls is a violation.",
-		LevelNote: "Trusted: the reflect-based snapshot (rt/snap). Generated native actions never write to the map they are given (action misbehaviour is not engine behaviour).",
+		Technique:   "bounded-exhaustive enumeration of step and walk cases with deep before/after snapshots of every argument, map-identity (alias) checks and repeat-call comparison",
+		LevelText:   "Every case of the C04 step space and the C05 walk space (quick vocabularies) is executed with deep snapshots of state, messages, spec, control and props taken before and after; any difference, any returned state sharing the caller's bindings map, and any difference between two identical calls is a violation.",
+		LevelNote:   "Trusted: the reflect-based snapshot (rt/snap). Generated native actions never write to the map they are given (action misbehaviour is not engine behaviour).",
 		Assumptions: append([]string{"failing behaviours are generated systematically: throwing / bad-return / same-map actions, rejecting and throwing guards, steps ending at the error node, walks hitting the limit or a breakpoint"}, commonAssumptions...)},
-	"C18": {ID: "C18", Harness: "core", Func: "C18", Category: "exploration", QuickDeadline: 200, ThoroughDeadline: 900,
-		Engine: "E1", DesignRef: "6/C18",
-		Technique: "bounded-exhaustive enumeration of states with permanent bindings x action/guard programs x node shapes x error routing on the real Spec.Step",
-		LevelText: "All combinations of a state universe with permanent bindings and an action/guard program list covering every way of returning bindings (and of failing) are executed through Spec.Step with every error-routing setting; whenever a state results every permanent binding must be present and unchanged; no crash.",
-		LevelNote: "Trusted: action-language renderers. Only the listed programs and states are covered.",
+	"C18": {ID: "C18", Parts: []Part{{Harness: "core", Func: "C18"}, {Harness: "corec", Func: "C18c", Race: true}}, GoMaxProcs: 1, Category: "exploration", QuickDeadline: 200, ThoroughDeadline: 900,
+		Engine: "E1+E2", DesignRef: "6/C18",
+		Technique:   "bounded-exhaustive enumeration of states with permanent bindings x action/guard programs x node shapes x error routing on the real Spec.Step; plus stateless schedule exploration (with a ThreadSanitizer pass) of machines with different permanent bindings walked concurrently over one compiled spec",
+		LevelText:   "All combinations of a state universe with permanent bindings and an action/guard program list covering every way of returning bindings (and of failing) are executed through Spec.Step with every error-routing setting; whenever a state results every permanent binding must be present and unchanged; no crash. Concurrent part: every interleaving (within the deviation bound) of 2-3 walks of machines with different permanent bindings over one compiled spec whose actions and guards delete and overwrite them; each walk must equal its solo walk.",
+		LevelNote:   "Trusted: action-language renderers. Only the listed programs and states are covered.",
 		Assumptions: commonAssumptions},
 	"C05": {ID: "C05", Harness: "core", Func: "C05", Category: "model_checking", QuickDeadline: 200, ThoroughDeadline: 1500,
 		Engine: "E1", DesignRef: "6/C05",
-		Technique: "explicit enumeration of all histories (spec x start state x message sequence x batch split x limit x breakpoint) on the real Spec.Walk with per-walk invariants, a reference walk and a split differential",
-		LevelText: "All walks of a finite family of 3-node specifications over all short message histories, every split into batches, a range of step limits and breakpoints are executed on the real Spec.Walk; ordered exactly-once consumption, the step bound, the truthful remainder, chain continuity, quiescence on Done, equality with a reference walk and split-independence are checked on every one.",
-		LevelNote: "Trusted: reference walk/step (rt/ref/rstep), action-language model. Specs are limited to 3 nodes from a fixed template list; sequences to the stated length.",
+		Technique:   "explicit enumeration of all histories (spec x start state x message sequence x batch split x limit x breakpoint) on the real Spec.Walk with per-walk invariants, a reference walk and a split differential",
+		LevelText:   "All walks of a finite family of 3-node specifications over all short message histories, every split into batches, a range of step limits and breakpoints are executed on the real Spec.Walk; ordered exactly-once consumption, the step bound, the truthful remainder, chain continuity, quiescence on Done, equality with a reference walk and split-independence are checked on every one.",
+		LevelNote:   "Trusted: reference walk/step (rt/ref/rstep), action-language model. Specs are limited to 3 nodes from a fixed template list; sequences to the stated length.",
 		Assumptions: append([]string{"deterministic actions and guards only (as the property states)"}, commonAssumptions...)},
 	"C04": {ID: "C04", Harness: "core", Func: "C04", Category: "exploration", QuickDeadline: 200, ThoroughDeadline: 1500,
 		Engine: "E1", DesignRef: "6/C04",
-		Technique: "bounded-exhaustive enumeration of node configurations x error settings x states x pending messages on the real Spec.Step against an executable reference of the documented step rule",
-		LevelText: "Every step of the stated finite space of specifications/states/messages is executed on the real Spec.Step (native and ECMAScript actions) and compared with a reference written from the README's Processing section; exhaustive within the vocabulary.",
-		LevelNote: "Trusted: the reference step rule (rt/ref/rstep), the action-language model (rt/actlang), pattern matching itself (decided by C01/C02). Error wording is not compared (masked).",
+		Technique:   "bounded-exhaustive enumeration of node configurations x error settings x states x pending messages on the real Spec.Step against an executable reference of the documented step rule",
+		LevelText:   "Every step of the stated finite space of specifications/states/messages is executed on the real Spec.Step (native and ECMAScript actions) and compared with a reference written from the README's Processing section; exhaustive within the vocabulary.",
+		LevelNote:   "Trusted: the reference step rule (rt/ref/rstep), the action-language model (rt/actlang), pattern matching itself (decided by C01/C02). Error wording is not compared (masked).",
 		Assumptions: append([]string{"reference rule rt/ref/rstep.Step; pattern matching inside the reference uses match.Match (its correctness is C01/C02)"}, commonAssumptions...)},
 	"C01": {ID: "C01", Harness: "match", Func: "C01", Category: "exploration", QuickDeadline: 150, ThoroughDeadline: 1500,
 		Engine: "E1", DesignRef: "6/C01",
-		Technique: "bounded-exhaustive enumeration of (pattern, message, bindings) triples against a reference containment relation (explicit enumeration, no sampling)",
-		LevelText: "Every triple of the stated finite space is executed on the real match.Match and every returned binding set is checked against an independent containment relation; exhaustive within the size bounds, nothing beyond them.",
-		LevelNote: "Trusted: the reference relation rt/ref/rmatch (written from the documentation), the enumerator, the Go toolchain. Values outside the alphabet and sizes above the bound are not covered.",
+		Technique:   "bounded-exhaustive enumeration of (pattern, message, bindings) triples against a reference containment relation (explicit enumeration, no sampling)",
+		LevelText:   "Every triple of the stated finite space is executed on the real match.Match and every returned binding set is checked against an independent containment relation; exhaustive within the size bounds, nothing beyond them.",
+		LevelNote:   "Trusted: the reference relation rt/ref/rmatch (written from the documentation), the enumerator, the Go toolchain. Values outside the alphabet and sizes above the bound are not covered.",
 		Assumptions: append([]string{"reference containment relation rt/ref/rmatch is the oracle (independent of match.go)"}, commonAssumptions...)},
 }
